@@ -396,18 +396,21 @@ type concHarness struct {
 func (h concHarness) String() string { return fmt.Sprintf("%s %v", h.Kind, h.Scripts) }
 
 type sharedSystem struct {
-	local string // root directory when the file server runs over LocalFileSystem
-	base  string // path prefix the CalDAV/CardDAV handler is mounted under ("" or "/dav")
+	local string        // root directory when the file server runs over LocalFileSystem
+	base  string        // path prefix the CalDAV/CardDAV handler is mounted under ("" or "/dav")
 	cfg   func() string // the handler's configuration fields as they are now
 	cfg0  string        // ... as they were when the handler was built
 	kind  string
-	wire  *harness.Wire
-	fs    *harness.MemFS
-	wd    *webdav.Client
-	calB  *harness.CalBackend
-	cal   *caldav.Client
-	cardB *harness.CardBackend
-	card  *carddav.Client
+	seq   atomic.Int64
+	// freshNames: the create operation names a new file (with a new extension) every time (race pass)
+	freshNames bool
+	wire       *harness.Wire
+	fs         *harness.MemFS
+	wd         *webdav.Client
+	calB       *harness.CalBackend
+	cal        *caldav.Client
+	cardB      *harness.CardBackend
+	card       *carddav.Client
 }
 
 func newSystem(kind string, nThreads int, s *sched.Sched) *sharedSystem {
@@ -441,7 +444,9 @@ func newSystem(kind string, nThreads int, s *sched.Sched) *sharedSystem {
 		}
 		hfs := &harness.HookFS{Inner: webdav.LocalFileSystem(dir), Hook: hook("fs")}
 		wh := &webdav.Handler{FileSystem: hfs}
-		sys.cfg = func() string { return fmt.Sprintf("FileSystem==configured:%v", wh.FileSystem == webdav.FileSystem(hfs)) }
+		sys.cfg = func() string {
+			return fmt.Sprintf("FileSystem==configured:%v", wh.FileSystem == webdav.FileSystem(hfs))
+		}
 		// the handler receives upload bodies in pieces, with a scheduling point before each piece: two
 		// uploads can overlap inside the file system
 		w := &harness.Wire{Handler: wh, Hook: hook("wire"), BodyHook: hook("body"), BodyChunk: 10}
@@ -480,7 +485,9 @@ func newSystem(kind string, nThreads int, s *sched.Sched) *sharedSystem {
 		}
 		b.Hook = hook("be")
 		ch := &caldav.Handler{Backend: b, Prefix: prefix}
-		sys.cfg = func() string { return fmt.Sprintf("Prefix=%q Backend==configured:%v", ch.Prefix, ch.Backend == caldav.Backend(b)) }
+		sys.cfg = func() string {
+			return fmt.Sprintf("Prefix=%q Backend==configured:%v", ch.Prefix, ch.Backend == caldav.Backend(b))
+		}
 		w := &harness.Wire{Handler: ch, Hook: hook("wire")}
 		sys.wire = w
 		sys.calB = b
@@ -498,7 +505,9 @@ func newSystem(kind string, nThreads int, s *sched.Sched) *sharedSystem {
 		}
 		b.Hook = hook("be")
 		ch := &carddav.Handler{Backend: b, Prefix: prefix}
-		sys.cfg = func() string { return fmt.Sprintf("Prefix=%q Backend==configured:%v", ch.Prefix, ch.Backend == carddav.Backend(b)) }
+		sys.cfg = func() string {
+			return fmt.Sprintf("Prefix=%q Backend==configured:%v", ch.Prefix, ch.Backend == carddav.Backend(b))
+		}
 		w := &harness.Wire{Handler: ch, Hook: hook("wire")}
 		sys.wire = w
 		sys.cardB = b
@@ -645,7 +654,15 @@ func (sys *sharedSystem) runOp(ctx context.Context, s *sched.Sched, tid int, op 
 			rc.Close()
 			return string(b) + " " + errStr(err)
 		case "create":
-			wc, err := sys.wd.Create(ctx, d+"/new")
+			// a name with an extension of its own: what the server derives from a name (content type) is
+			// derived for the first time by each thread
+			name := fmt.Sprintf("%s/new.t%de", d, tid)
+			if sys.freshNames {
+				// free-running race pass: a never-seen extension every time, so that derived per-name state
+				// is derived anew while other threads are at work
+				name = fmt.Sprintf("%s/new.t%de%d", d, tid, sys.seq.Add(1))
+			}
+			wc, err := sys.wd.Create(ctx, name)
 			if err != nil {
 				return errStr(err)
 			}
@@ -821,8 +838,17 @@ func soloReference(h concHarness) *concObs {
 	return o
 }
 
+// stuckHook is called (outside the bubble, in real time) when an execution has not become quiescent after
+// 30 s: some goroutine is blocked on a primitive synctest does not treat as durably blocking (a sync.Mutex)
+// while its holder is parked at a scheduling point - a lock held across I/O.
+var stuckHook func(h concHarness, prefix []int)
+
 func runConc(t *testing.T, h concHarness, prefix []int) (s *sched.Sched, obs *concObs) {
 	obs = &concObs{Logs: make([][]string, len(h.Scripts)), States: make([]string, len(h.Scripts))}
+	if stuckHook != nil {
+		tm := time.AfterFunc(30*time.Second, func() { stuckHook(h, prefix) })
+		defer tm.Stop()
+	}
 	func() {
 		defer func() {
 			if p := recover(); p != nil {
@@ -1081,6 +1107,18 @@ func TestC18(t *testing.T) {
 	}
 
 	// ---- part A: concurrent requests on disjoint resources ----
+	stuckHook = func(h concHarness, prefix []int) {
+		shard.Violate(engine.Violation{Sig: "C18/concurrent/blocked-on-a-lock-held-across-a-scheduling-point/" + h.Kind, Clause: "lock-held-across-io", Index: 1 << 61, Kind: "C18",
+			Case: c18Case{Part: "concurrent", Conc: &h, Schedule: prefix}, Expected: "same results and effects as when run alone",
+			Observed: "after this schedule prefix the execution did not become quiescent within 30 s: a request waits for a lock (not for I/O) that another request holds while it is waiting for its own I/O, so requests on disjoint resources are not independent"})
+		caps = append(caps, "exploration of this shard stopped at an execution that never became quiescent")
+		if b, err := shard.Export(caps, extra); err == nil {
+			if out := os.Getenv("C18_OUT"); out != "" {
+				os.WriteFile(out, b, 0o644)
+			}
+		}
+		os.Exit(0)
+	}
 	for hi, h := range ch {
 		if (len(uh)+hi)%shardN != shardI {
 			continue
@@ -1294,7 +1332,7 @@ func replay(t *testing.T, file string) {
 	if v.Case.Part == "" {
 		var sc struct {
 			Case struct {
-				Handler       string      `json:"handler"`
+				Handler       string `json:"handler"`
 				First, Second harness.Req
 			} `json:"case"`
 		}
@@ -1318,6 +1356,10 @@ func replay(t *testing.T, file string) {
 			fmt.Println("trace:", sched.TraceString(s.Trace))
 		}
 	} else {
+		stuckHook = func(h concHarness, prefix []int) {
+			fmt.Printf("now: the execution did not become quiescent within 30 s (a lock held across a scheduling point)\nVIOLATION property=C18 replay=%s\n", file)
+			os.Exit(1)
+		}
 		ref := soloReference(*v.Case.Conc)
 		s, o := runConc(t, *v.Case.Conc, v.Case.Schedule)
 		out = judgeConc(s, o, ref)
